@@ -199,6 +199,23 @@ CHECKS = {
               "death), < 2 s. distinct_nontrivial = distinct texts."),
         assumptions=["a stack overflow kills the worker and is attributed through the progress file"],
     ),
+    "C14": dict(
+        engine="py:c14", level="exploration", quick_cap=600, thorough_cap=7200,
+        rule=("Programs: the naming-stress and structural Thrift corpus of lib/corpus.py thrift_stress() (27 documents: every "
+              "Rust keyword of pilota's KEYWORDS_SET as struct / field / argument / method / enum / variant / typedef / const name; "
+              "std prelude names as type and variant names; identifiers colliding after case conversion; recursion through "
+              "optional fields, lists, maps, unions, typedefs, exceptions and required fields; constants of every kind incl. nested "
+              "and struct literals; a 5-file document with includes, nested and sibling namespaces, same type names in several "
+              "files and cross-file service extends; services with oneway/void/extends/throws; every container nesting to depth "
+              "3) + the 7 semantic documents [+ the protobuf documents]. Configurations: quick = one document per construct label "
+              "x {single/keep-off, split/keep-on, change_case off, keep-on+ignore_unused}; thorough = all documents x all 16 "
+              "combinations of {single, split} x {keep off,on} x {change_case on,off} x {ignore_unused off,on}. Oracle: the "
+              "builder child exits 0 within 60 s; `cargo check` of a crate that includes every emitted file as a module against "
+              "the real pilota succeeds (a failing crate is narrowed to modules through the rustc diagnostics). "
+              "distinct_nontrivial = (document, configuration) pairs with non-empty output."),
+        assumptions=["the grammar is the one of DESIGN.md §2; hashable-key restrictions of Rust containers are respected (no "
+                     "set<set<..>>, no map<map<..>,..>)", "type-checking is `cargo check` (no codegen)"],
+    ),
 }
 
 
@@ -240,6 +257,7 @@ def write_manifest():
     kinds = {
         "vcore": "shared library: dynamic Thrift values, bounded enumerators, reference codecs written from the specs, deviation-bounded explorer, counting allocator, shard/evidence plumbing",
         "gen:tsem": "generated-code engine: lib/corpus.py writes the semantic Thrift corpus + its schema, engines/vgen runs the real pilota-build per (document, configuration) in a child process, lib/gen.py scans the output for generated Message impls and emits a harness crate that include!s them; engines/vgenrun/src is the harness (schema-directed value enumeration, reference codec comparison)",
+        "py:c14": "lib/c14.py: runs engines/vgen (the real pilota-build) in a child process per (document, configuration) and type-checks all outputs as modules of one crate",
         "vparse": "Thrift IDL parser engine: own descriptor AST, token printer with a choice point at every free layout decision, mutation/fault enumerators over rendered documents; drives pilota_thrift_parser::File::parse",
         "vrt": "runtime-level engine: value interpreter that drives pilota's real protocol objects exhaustively over the enumerated spaces (sync and scripted-async readers)",
     }
@@ -254,7 +272,7 @@ def write_manifest():
             "add_only": True,
         },
         "engines": [{"name": "vcore", "path": "engines/vcore", "serves_properties": sorted(CHECKS), "kind_free_text": kinds["vcore"]}] +
-                   [{"name": e, "path": ("engines/vgenrun" if e.startswith("gen:") else "engines/" + e), "serves_properties": ps, "kind_free_text": kinds.get(e, "")} for e, ps in engines.items()],
+                   [{"name": e, "path": ("engines/vgenrun" if e.startswith("gen:") else ("lib/" + e[3:] + ".py" if e.startswith("py:") else "engines/" + e)), "serves_properties": ps, "kind_free_text": kinds.get(e, "")} for e, ps in engines.items()],
         "checks": checks,
         "not_applicable": na,
         "notes": "Quick tier of every check runs in well under a minute after ./verif setup; exit 2 = machinery error (never a verdict). known_findings.json lists recorded defects; fixed entries suppress nothing.",
@@ -273,6 +291,9 @@ def setup():
     import gen
     r = gen.build_thrift_sem("quick")
     print("tsem harness:", json.dumps(r["info"]))
+    # warm the C14 type-check crate (cargo check is a no-op afterwards unless /repo changes)
+    import c14
+    c14.run("quick", 0)
     print("setup ok")
     return 0
 
@@ -311,6 +332,9 @@ def run_check(pid, tier, seed):
     if pid not in CHECKS:
         die("unknown check " + pid)
     c = CHECKS[pid]
+    if c["engine"].startswith("py:"):
+        import importlib
+        return importlib.import_module(c["engine"][3:]).run(tier, seed)
     t0 = time.time()
     parts = c.get("parts", [c["engine"]])
     merged = None
@@ -411,6 +435,9 @@ def replay(path):
     r = json.load(open(path))
     pid = r["property"]
     c = CHECKS[pid]
+    if c["engine"].startswith("py:"):
+        import importlib
+        return importlib.import_module(c["engine"][3:]).replay(path)
     engine = r.get("engine", c["engine"])
     binpath, _, _ = engine_bin(engine, r.get("tier", "quick"))
     if "worker-death" in r.get("sig", "") and "index" in r.get("case", {}):
